@@ -573,6 +573,8 @@ func vfCAlphabet(mode string, max int64, withProxy bool) []*vfCOp {
 		put("put(ac,k,v1)", kac, v1, ""),
 		put("put(ac,k,v2)", kac, v2, ""),
 		put("put(raw,k,w1)", kraw, w1, ""),
+		put("put(ac,k,v2,short)", kac, v2, "short"),
+		put("put(raw,k,w1,reader-error)", kraw, w1, "readerr"),
 		{name: "get(cas,a,size)", what: "get", key: ka, size: int64(len(da))},
 		{name: "get(cas,b,-1)", what: "get", key: kb, size: -1},
 		{name: "getzstd(cas,z,size)", what: "getzstd", key: kz, size: int64(len(z))},
